@@ -588,8 +588,40 @@ class SchemaGen:
 		return '\n'.join(self.lines) + '\n'
 
 
+DIRECTED = {
+	'array-of-alias': 'using Amount = uint64\n\nstruct Holder\n\tamounts = array(Amount, 2)\n',
+	'array-of-wide-int': 'struct Holder\n\tvalues = array(uint32, 2)\n',
+	'array-of-enum': 'enum Flag : uint8\n\tNONE = 0\n\tSOME = 1\n\nstruct Holder\n\tflags_count = uint8\n\tflags = array(Flag, flags_count)\n',
+	'array-of-alias-in-aligned-struct': 'using Amount = uint64\n\n@is_aligned\nstruct Holder\n\tamounts = array(Amount, 2)\n',
+	'recursive-marking':
+		'@is_aligned\nstruct Alpha\n\tvalue = uint32\n\n@is_aligned\nabstract struct BarBase\n\ttag = uint8\n\nstruct Bar\n\tinline BarBase\n\talpha = Alpha\n\n'
+		'@is_aligned\nabstract struct FooBase\n\tkind = uint8\n\nstruct Foo\n\tinline FooBase\n\tbar = BarBase\n\n'
+		'struct FooContainer\n\tfoos = array(FooBase, 5)\n',
+	'array-in-marked-descendant':
+		'@is_aligned\nstruct Gamma\n\tvalue = uint32\n\n@is_aligned\nabstract struct FooBase\n\tkind = uint8\n\nstruct Foo\n\tinline FooBase\n\tgammas = array(Gamma, 5)\n\n'
+		'struct FooContainer\n\tfoos = array(FooBase, 5)\n',
+	'abstract-inlines-abstract':
+		'@is_aligned\nabstract struct FooBase\n\tkind = uint8\n\nabstract struct Bee\n\tinline FooBase\n\txx = uint8\n\nstruct Uu\n\tyy = uint8\n\n'
+		'struct Ss\n\tinline Bee\n\tuu = Uu\n\nstruct Foo\n\tinline FooBase\n\tss = Ss\n\nstruct Container\n\tfoos = array(FooBase, 2)\n',
+	'two-factories-interleaved':
+		'enum Kind : uint16\n\tALPHA = 1\n\tBETA = 2\n\n@is_aligned\n@discriminator(kind, version)\nabstract struct Shape\n\tversion = uint8\n\tkind = Kind\n\n'
+		'@is_aligned\n@discriminator(code)\nabstract struct Event\n\tcode = uint32\n\nstruct Point\n\txx = uint32\n\n'
+		'@initializes(version, V_ONE)\n@initializes(kind, ALPHA)\nstruct Circle\n\tinline Shape\n\tcenter = Point\n\n'
+		'@initializes(code, E_ONE)\nstruct Click\n\tinline Event\n\n@initializes(kind, BETA)\n@initializes(version, V_TWO)\nstruct Square\n\tinline Shape\n\n'
+		'@initializes(code, E_TWO)\nstruct Scroll\n\tinline Event\n\tdelta_size = sizeof(uint16, delta)\n\tdelta = Point\n\n'
+		'struct Canvas\n\tshapes_count = uint8\n\tshapes = array(Shape, shapes_count)\n\ttags = array(uint8, 2)\n',
+	'shared-count-and-two-sizeofs':
+		'struct Item\n\tvalue = uint32\n\nstruct Holder\n\tcount = uint8\n\tfirst = array(Item, count)\n\tsecond = array(Item, count)\n\t'
+		'first_size = sizeof(uint16, first)\n\tfirst_size_again = sizeof(uint32, first)\n',
+	'missing-initializer':
+		'@discriminator(kind, version)\nabstract struct Base\n\tkind = uint8\n\tversion = uint8\n\n@initializes(kind, ONE)\nstruct Derived\n\tinline Base\n',
+}
+
+
 def gen_cases(rng, tier):
 	cases = []
+	for name, text in DIRECTED.items():
+		cases.append({'kind': 'directed', 'name': name, 'text': text, 'features': [f'directed:{name}']})
 	for network in ('symbol', 'nem'):
 		for name in ('all_generated.cats', 'all.cats'):
 			cases.append({'kind': 'shipped', 'network': network, 'file': name})
@@ -619,7 +651,9 @@ def evaluate(case):
 
 
 def case_label(case):
-	return f'{case["network"]}/{case["file"]}' if case['kind'] == 'shipped' else f'random#{case["id"]}'
+	if case['kind'] == 'shipped':
+		return f'{case["network"]}/{case["file"]}'
+	return f'directed:{case["name"]}' if case['kind'] == 'directed' else f'random#{case["id"]}'
 
 
 def replay_payload(case, result):
@@ -650,7 +684,7 @@ def run(check, unrecognised):
 		'model names are unique and requires_unaligned is False on entry (what the parser produces); factory types are non-empty names',
 		'theorem extend_no_crash: references resolve (array size names and sizeof targets name members, factory types name structs, no '
 		'unexpanded inline placeholder)']
-	check.extra['rule'] = 'the 4 shipped expanded schema sets + seeded random CATS documents (0-4 abstract factories incl. abstract-inlines-' \
+	check.extra['rule'] = 'the 4 shipped expanded schema sets + 10 directed small schemas (one feature each) + seeded random CATS documents (0-4 abstract factories incl. abstract-inlines-' \
 		'abstract chains, 0-4 interleaved descendants each with 1-3 discriminators and shuffled / duplicated / missing initializers, aligned ' \
 		'and unaligned structs, arrays of structs / factories / descendants / aliases / enums / wide ints with numeric, count, byte-size, ' \
 		'shared, trailing and fill sizes, sizeof members, named inline templates), each parsed by the repo parser and expanded by ' \
@@ -705,9 +739,17 @@ def run(check, unrecognised):
 		'can depend on the iteration order of the Python set struct_names (hash seed); both outcomes lie inside the sandwich. '
 		'Coq: DeriveProofs.order_matters_example')
 	failing.sort(key=lambda item: item[0])   # smallest schema first: it becomes the replay of its signature
+	same_signature = {}
+	for _, case, result in failing:
+		for signature in {signature for signature, _ in result['problems']}:
+			same_signature.setdefault(signature, []).append(case_label(case))
 	for _, case, result in failing:
 		for signature, text in result['problems']:
-			check.fail(signature, f'{case_label(case)}: {text}', replay_payload(case, result))
+			payload = replay_payload(case, result)
+			others = same_signature[signature]
+			payload['same_signature_cases'] = {
+				'count': len(others), 'shipped': [label for label in others if '/' in label], 'first': others[:8]}
+			check.fail(signature, f'{case_label(case)}: {text}', payload)
 	for case, result in list(zip(cases, results))[::max(1, len(cases) // 6)]:
 		check.sample({'case': case_label(case), 'shape': {k: v for k, v in result['shape'].items() if k != 'order'}, 'observed': result['text'][:300]})
 
